@@ -46,12 +46,13 @@ prop("C19", [
     S(REASM, "^TestC19StreamCloses$", q=3000, t=40000, shards=16),
     S(REASM, "^TestC19Nested$", q=600, t=8000, shards=16),
     S(REASM, "^TestC19Large$", kind="plain", timeout_t=3000),
+    S(REASM, "^TestC19LongSleeps$", kind="plain"),
 ], REASM_ASSUME + ["time is real: expiry is decided three-valued from harness clock brackets; only definite answers are asserted",
                    "what a push made after Close does itself is not asserted (only that later Maintain/Close fail and deliver nothing)"],
    nontrivial_classes=["history-with-timeout-only-delivery", "history-with-call-after-close", "history-with-push-after-close",
                        "decision-definitely-expired", "decision-definitely-live", "large-stale-buffer-history",
                        "stream-closes-while-call-has-more-to-deliver-and-2-events-are-buffered",
-                       "nested-call-after-sleep-delivers-expired-events"])
+                       "nested-call-after-sleep-delivers-expired-events", "history-with-sleep-of-0.7s-or-more-under-a-long-timeout"])
 
 PARSE = "props/parse"
 
@@ -144,7 +145,7 @@ prop("C08", [
     "real-transport stage: rtnetlink in a private network namespace plays the kernel (every audit message type is refused with EOPNOTSUPP; unsolicited sequence-0 messages are address notifications caused by a raw socket); skipped without the privilege",
     "'identifies the errno' = errors.Is(err, errno), plus AddRule's documented 'rule exists' text for EEXIST",
     "at most 9 transient receive failures in a row (the property's bound); EAGAIN is rationed because the client sleeps 50 ms on it"],
-   nontrivial_classes=["op-with-17-or-more-rules-of-realistic-size", "op-with-errno", "op-with-foreign-reply", "op-with-interleaved-events", "op-with-transient-failures", "op-with-fault-send", "op-with-fault-recv", "op-with-fault-shortack", "op-with-fault-acktype"] +
+   nontrivial_classes=["history-with-wrapped-receive-errors", "op-with-17-or-more-rules-of-realistic-size", "op-with-errno", "op-with-foreign-reply", "op-with-interleaved-events", "op-with-transient-failures", "op-with-fault-send", "op-with-fault-recv", "op-with-fault-shortack", "op-with-fault-acktype"] +
                       ["op-" + o for o in ["GetStatus", "GetRules", "AddRule", "DeleteRule", "DeleteRules", "SetPID", "SetRateLimit", "SetBacklogLimit",
                                             "SetEnabled", "SetImmutable", "SetFailure", "SetBacklogWaitTime"]])
 
@@ -167,7 +168,7 @@ prop("C17", [
     S(CLIENT, "^TestC17ConcurrentClose$", kind="plain", q=4000, t=200000),
 ], ["a synchronous request is never issued while ACKs are pending (the property does not say what happens)",
     "the return value of Close calls after the first is not asserted"],
-   nontrivial_classes=["history-with-error-among-acks", "history-with-2-nowait-and-2-waits", "history-with-repeated-close",
+   nontrivial_classes=["synchronous-request-whose-reply-cannot-be-read", "nowait-request-numbered-0", "history-with-error-among-acks", "history-with-2-nowait-and-2-waits", "history-with-repeated-close",
                        "history-close-after-setpid", "history-waitacks-after-close-with-pending", "history-close-after-calls-on-closed-client", "history-with-getrules-then-traffic", "concurrent-close", "history-close-with-failing-send"])
 
 prop("C18", [
@@ -219,7 +220,7 @@ prop("C20", [
     S(TABLES, "^TestC20", kind="plain"),
 ], ["internal consistency only, as the property states; agreement with the kernel headers is informational here and enforced by C06 / C12 / C16",
     "the name->type table is read from the generated source file of the working tree (it is not exported)"],
-   nontrivial_classes=["table-normalization-compound", "table-record-type", "table-record-type-name", "table-errno-number", "table-errno-name", "table-arch", "table-syscall",
+   nontrivial_classes=["table-errno-displayed", "table-normalization-compound", "table-record-type", "table-record-type-name", "table-errno-number", "table-errno-name", "table-arch", "table-syscall",
                        "table-rule-field", "table-rule-operator", "table-rule-comparison", "table-normalization-syscall", "table-normalization-record-type"])
 
 prop("C11", [
